@@ -703,7 +703,7 @@ func (fr *frame) enterLoop(l *loop, st *State) *State {
 	invs, decs := fr.loopClauses(l)
 	ev := fr.env(st, fr.entry, l)
 	for _, c := range invs {
-		if !fr.clauseActive(c) {
+		if !fr.clauseActive(c) || c.Kind == "transition" {
 			continue
 		}
 		t, err := ev.EvalBool(c.E)
@@ -719,7 +719,7 @@ func (fr *frame) enterLoop(l *loop, st *State) *State {
 			fx.note("ASSUMED without proof at loop %d of %s: %s", l.ord, fr.name, c.Src)
 			continue
 		}
-		if c.Kind == "derived" {
+		if c.Kind == "derived" || c.Kind == "transition" {
 			continue
 		}
 		if facetLevel[c.Facet] == fr.level {
@@ -761,6 +761,9 @@ func (fr *frame) enterLoop(l *loop, st *State) *State {
 			continue
 		}
 		if c.Kind == "candidate" && fx.candFail[CandKey{c, l.ord}] {
+			continue
+		}
+		if c.Kind == "transition" {
 			continue
 		}
 		if t, err := ev2.EvalBool(c.E); err == nil {
@@ -805,6 +808,21 @@ func (fr *frame) backEdge(l *loop, cond Term, st *State) {
 			continue
 		}
 		if c.Kind == "assume" || c.Kind == "derived" {
+			continue
+		}
+		if c.Kind == "transition" {
+			hi := fr.loopHead[l]
+			if hi == nil {
+				continue
+			}
+			tev := fr.env(st, fr.entry, l)
+			tev.prevSt, tev.prevLoop = hi.st, l
+			t, err := tev.EvalBool(c.E)
+			if err != nil {
+				fr.specError(c, err)
+				continue
+			}
+			fr.obligeSplit("inv-transition", fmt.Sprintf("loop%d.%s", l.ord, clauseName(c)), t, l.header.Instrs[0].Pos(), c.Facet, c.Tags)
 			continue
 		}
 		t, err := ev.EvalBool(c.E)
